@@ -18,7 +18,7 @@ type nopStats struct{}
 
 var spinSink atomic.Int64
 
-func (nopStats) TagRPC(ctx context.Context, _ *stats.RPCTagInfo) context.Context   { return ctx }
+func (nopStats) TagRPC(ctx context.Context, _ *stats.RPCTagInfo) context.Context { return ctx }
 func (nopStats) HandleRPC(_ context.Context, s stats.RPCStats) {
 	if _, ok := s.(*stats.OutHeader); ok {
 		// an observer that takes a few microseconds over the headers (it spins: it must not block on anything the
